@@ -118,11 +118,12 @@ BestMap(T) ==
                      ELSE best,
            [b \in InTree(T) |-> [dd |-> 0, len |-> 0, kid |-> 0]], Reverse(T.arr))
 
+\* (built with a fold into an explicit tuple: a recursively defined function is re-evaluated by TLC at
+\* every application, which made every use of the chain quadratic in its length)
 BestChainOf(T) ==
   LET best == BestMap(T)
       n == best[T.anchor].len + 1
-      walk[i \in 1..n] == IF i = 1 THEN T.anchor ELSE best[walk[i - 1]].kid
-  IN [i \in 1..n |-> walk[i]]
+  IN FoldLeft(LAMBDA acc, i : Append(acc, best[acc[Len(acc)]].kid), <<T.anchor>>, [i \in 1..(n - 1) |-> i])
 
 (***************************************************************************)
 (* Stability rule.                                                         *)
@@ -210,7 +211,20 @@ CutLenRef(T, chain, c) ==
   ELSE IF StabilityCount(T, chain[1]) < c THEN 0
   ELSE 1 + CutLenRef(T, Tail(chain), c)
 
+\* children of every block in arrival order, and the pre-order of the tree, without recursion
+KidsMap(T) ==
+  FoldLeft(LAMBDA km, x : IF x = T.anchor \/ Par(x) \notin DOMAIN km THEN km ELSE [km EXCEPT ![Par(x)] = Append(@, x)],
+           [b \in InTree(T) |-> <<>>], T.arr)
+PreorderFast(T) ==
+  LET km == KidsMap(T)
+      step(st, i) ==
+        IF Len(st.stack) = 0 THEN st
+        ELSE LET top == st.stack[Len(st.stack)]
+             IN [stack |-> SubSeq(st.stack, 1, Len(st.stack) - 1) \o Reverse(km[top]), out |-> Append(st.out, top)]
+  IN FoldLeft(step, [stack |-> <<T.anchor>>, out |-> <<>>], [i \in 1..Len(T.arr) |-> i]).out
+
 FastMapsAgree(T) ==
+  /\ PreorderFast(T) = Preorder(T, T.anchor)
   /\ \A b \in InTree(T) : DepthMap(T)[b] = Depth(T, b) /\ DDMap(T)[b] = DD(T, b)
                             /\ StabilityMap(T)[b] = StabilityCount(T, b)
                             /\ RelHeightMap(T)[b] = Height(b) - Height(T.anchor)
